@@ -35,6 +35,7 @@ type checker struct {
 	deaths          int
 	agg             *agg
 	runsDone        int
+	curPrior        map[int][]int
 }
 
 type foundViolation struct {
@@ -42,6 +43,7 @@ type foundViolation struct {
 	plan  *Plan
 	index int
 	count int
+	prior []int
 }
 
 type finding struct {
@@ -186,6 +188,7 @@ func (c *checker) run() int {
 }
 
 func (c *checker) collect(o *runOutcome) {
+	c.curPrior = o.prior
 	var idx []int
 	for i := range o.results {
 		idx = append(idx, i)
@@ -216,7 +219,7 @@ func (c *checker) note(v Violation, plan *Plan, index int) {
 		fv.count++
 		return
 	}
-	c.newKeys[v.Key] = &foundViolation{v: v, plan: plan, index: index, count: 1}
+	c.newKeys[v.Key] = &foundViolation{v: v, plan: plan, index: index, count: 1, prior: c.curPrior[index]}
 }
 
 // crossCompare: a plan's responses must not depend on the process that
@@ -281,7 +284,7 @@ func (c *checker) noteCross(v Violation, index int, a *runOutcome) {
 		fv.count++
 		return
 	}
-	c.newKeys[v.Key] = &foundViolation{v: v, plan: nil, index: index, count: 1}
+	c.newKeys[v.Key] = &foundViolation{v: v, plan: nil, index: index, count: 1, prior: a.prior[index]}
 }
 
 func (c *checker) handleDeaths(a *runOutcome) {
@@ -362,14 +365,80 @@ func (c *checker) replayDir() string {
 	return d
 }
 
+func (c *checker) historyPlans(fv *foundViolation) []*Plan {
+	var hs []*Plan
+	for _, j := range fv.prior {
+		hs = append(hs, GenPlan(c.prop, c.seed, j, c.tier))
+	}
+	return hs
+}
+
+// reduceHistory drops plans from the history (all but the last plan of rp.Plans)
+// while the replay still reproduces: halves first, then single plans.
+func (c *checker) reduceHistory(rp *Replay, budget int) *Replay {
+	hist := rp.Plans[:len(rp.Plans)-1]
+	last := rp.Plans[len(rp.Plans)-1]
+	try := func(h []*Plan) bool {
+		if budget <= 0 {
+			return false
+		}
+		budget--
+		c.minimiseRuns++
+		cand := *rp
+		cand.Plans = append(append([]*Plan{}, h...), last)
+		ok, _ := replayReproduces(&cand)
+		return ok
+	}
+	for n := 2; len(hist) > 0 && budget > 0; {
+		chunk := (len(hist) + n - 1) / n
+		reduced := false
+		for lo := 0; lo < len(hist); lo += chunk {
+			hi := lo + chunk
+			if hi > len(hist) {
+				hi = len(hist)
+			}
+			cand := append(append([]*Plan{}, hist[:lo]...), hist[hi:]...)
+			if try(cand) {
+				hist = cand
+				reduced = true
+				if n > 2 {
+					n--
+				}
+				break
+			}
+		}
+		if !reduced {
+			if chunk == 1 {
+				break
+			}
+			n *= 2
+			if n > len(hist) {
+				n = len(hist)
+			}
+		}
+	}
+	out := *rp
+	out.Plans = append(append([]*Plan{}, hist...), last)
+	return &out
+}
+
 func (c *checker) makeReplay(fv *foundViolation) string {
+	hbudget := 40
+	if c.tier == "thorough" {
+		hbudget = 200
+	}
 	if fv.plan == nil {
 		// cross-process difference: the replay is the plan run in two fresh nodes
 		plan := GenPlan(c.prop, c.seed, fv.index, c.tier)
-		rp := &Replay{Property: c.prop, Mode: "cross", Plans: []*Plan{plan}, Expected: &fv.v}
+		rp := &Replay{Property: c.prop, Mode: "cross", Plans: []*Plan{plan}, Alone: plan, Expected: &fv.v}
 		if ok, _ := replayReproduces(rp); !ok {
-			// it needs the history of the worker that ran it: include the plans before it
-			infra("cross-process difference for plan %d did not reproduce in two fresh nodes (it depends on more history than one plan); detail: %s", fv.index, fv.v.Detail)
+			// it needs the history of the node that ran it: the plans that node executed before
+			rp.Plans = append(c.historyPlans(fv), plan)
+			rp.Note = "the difference depends on what the node executed before: `plans` run in one fresh node, `alone` in another"
+			if ok2, _ := replayReproduces(rp); !ok2 {
+				infra("cross-process difference for plan %d did not reproduce, neither alone nor after the history of its node; detail: %s", fv.index, fv.v.Detail)
+			}
+			rp = c.reduceHistory(rp, hbudget)
 		}
 		return c.writeReplay(rp, fv)
 	}
@@ -380,7 +449,17 @@ func (c *checker) makeReplay(fv *foundViolation) string {
 		plan := GenPlan(c.prop, c.seed, fv.index, c.tier)
 		rp = &Replay{Property: c.prop, Mode: "plan", Plans: []*Plan{plan}, Expected: &fv.v}
 		if ok2, _ := replayReproduces(rp); !ok2 {
-			infra("violation %s of plan %d did not reproduce in a fresh node (it depends on history beyond the plan); detail: %s", fv.v.Key, fv.index, fv.v.Detail)
+			// the violation depends on what the node executed before this plan
+			rp.Plans = append(c.historyPlans(fv), plan)
+			rp.Note = "the violation depends on what the node executed before: all plans run in order in one fresh node, the violation shows in the last one"
+			if ok3, _ := replayReproduces(rp); !ok3 {
+				rp.Plans[len(rp.Plans)-1] = fv.plan
+				if ok4, _ := replayReproduces(rp); !ok4 {
+					infra("violation %s of plan %d did not reproduce in a fresh node, neither alone nor after the history of its node; detail: %s", fv.v.Key, fv.index, fv.v.Detail)
+				}
+			}
+			rp = c.reduceHistory(rp, hbudget)
+			return c.writeReplay(rp, fv)
 		}
 	}
 	budget := 120
@@ -412,8 +491,12 @@ func (c *checker) writeReplay(rp *Replay, fv *foundViolation) string {
 func replayReproduces(rp *Replay) (bool, *Violation) {
 	switch rp.Mode {
 	case "cross":
+		alone := rp.Alone
+		if alone == nil {
+			alone = rp.Plans[len(rp.Plans)-1]
+		}
 		r1, d1, _ := runPlansFresh(rp.Plans, 1)
-		r2, d2, _ := runPlansFresh(rp.Plans[len(rp.Plans)-1:], 16)
+		r2, d2, _ := runPlansFresh([]*Plan{alone}, 16)
 		if d1 || d2 || len(r1) == 0 || len(r2) == 0 {
 			return false, nil
 		}
@@ -424,10 +507,11 @@ func replayReproduces(rp *Replay) (bool, *Violation) {
 				if ca == cb && ca != "ok" {
 					continue
 				}
-				return true, rp.Expected
+				v := *rp.Expected
+				v.Detail = fmt.Sprintf("operation %s answered %s after the recorded history in one node and %s alone in another", strings.SplitN(a.OpDigests[k], "=", 2)[0], a.OpDigests[k], b.OpDigests[k])
+				return true, &v
 			}
 		}
-		// same plan twice in fresh processes of different GOMAXPROCS agreed; try a second pair
 		return false, nil
 	case "race":
 		return raceReproduces(rp)
@@ -441,8 +525,9 @@ func replayReproduces(rp *Replay) (bool, *Violation) {
 		}
 		return false, nil
 	}
-	for _, r := range res {
-		for _, v := range r.Violations {
+	if len(res) > 0 {
+		// the violation must show in the last plan (the ones before it are history)
+		for _, v := range res[len(res)-1].Violations {
 			if rp.Expected == nil || (v.Property == rp.Expected.Property && v.Oracle == rp.Expected.Oracle) {
 				vv := v
 				return true, &vv
